@@ -1,0 +1,36 @@
+//go:build verif
+
+package bridgesync
+
+import (
+	"context"
+
+	"github.com/agglayer/aggkit/log"
+	"github.com/agglayer/aggkit/sync"
+)
+
+// NewVerifC14BridgeSync builds the real BridgeSync facade around a real processor (real SQLite store on dbPath)
+// without driver, downloader, RPC client or bridge contract binding: blocks are fed by VerifC14ProcessBlock.
+// These are plain functions (not methods) so that the method set of *BridgeSync is exactly the product's.
+func NewVerifC14BridgeSync(dbPath string, originNetwork uint32, rd ReorgDetector) (*BridgeSync, error) {
+	p, err := newProcessor(dbPath, "bridge_sync_verif_c14", log.WithFields("module", "verif-c14"))
+	if err != nil {
+		return nil, err
+	}
+	return &BridgeSync{processor: p, originNetwork: originNetwork, reorgDetector: rd}, nil
+}
+
+// VerifC14ProcessBlock hands one block (Events are bridgesync.Event values) to the real processor.
+func VerifC14ProcessBlock(ctx context.Context, s *BridgeSync, b sync.Block) error {
+	return s.processor.ProcessBlock(ctx, b)
+}
+
+// VerifC14Reorg calls the real processor's Reorg.
+func VerifC14Reorg(ctx context.Context, s *BridgeSync, firstReorgedBlock uint64) error {
+	return s.processor.Reorg(ctx, firstReorgedBlock)
+}
+
+// VerifC14Close closes the store.
+func VerifC14Close(s *BridgeSync) error {
+	return s.processor.db.Close()
+}
